@@ -1543,7 +1543,8 @@ def run(ctx):
         if len(samples) < 12 and part != 'base' and evaluations[0] % 3001 == 7:
             rq = build_case(base, part, ops)
             samples.append({'base': base['id'], 'state': st, 'part': part,
-                            'mutation': [list(op_label(base, part, op)) for op in ops],
+                            'mutation': [list(op_label(base, part, op)) +
+                                         [repr(op[2])[:80]] for op in ops],
                             'request': '%s %s%s' % (rq['method'], rq['path'][:200],
                                                     ('?' + rq['query'][:300]) if rq['query']
                                                     else ''),
@@ -1582,7 +1583,7 @@ def run(ctx):
 
     # ---- depth 1: every single mutation, every state --------------------------------------
     done1 = _drive(ctx, depth1_cases(corp, STATES), on_result, base_img,
-                   deadline=budget * (0.97 if ctx.quick else 0.35))
+                   deadline=budget * (0.9 if ctx.quick else 0.35))
     if not done1:
         ctx.cap('depth 1 stopped by the time budget after %d cases' % evaluations[0])
     # ---- depth 2: every pair inside one request part (thorough tier) ------------------------
